@@ -1,4 +1,5 @@
 From AQ Require Import lib.Base model.H3Parse proofs.H3Chunk proofs.H3Split proofs.H3Loop proofs.H3Recv proofs.H3Fin proofs.H3Uni proofs.H3Table proofs.H3Push proofs.H3Hdr proofs.H3UniN proofs.H3Conn proofs.H3ConnTwo.
+From AQ Require Import model.H3Send proofs.H3Round.
 
 (* On the code as pinned, the events of a request stream depend on the chunking: three byte strings for which
    whole delivery and a two-chunk delivery give different normalised events (end-of-stream marker). *)
@@ -290,3 +291,43 @@ Theorem frame_loop_fuel_independent :
   rq_loop f1 fx O cl fin st b evs = rq_loop f2 fx O cl fin st b evs.
 Proof. exact loop_fuel. Qed.
 Print Assumptions frame_loop_fuel_independent.
+
+(* ROUND TRIP ("headers, bodies and trailers submitted through the sending API on one endpoint arrive unchanged and in order
+   on the other for every valid header list, body size and write pattern").  Sending side: model/H3Send.v (send_headers,
+   send_data, send_push_promise; tied to the real H3Connection by the correspondence suite h3send: every send_stream_data
+   call, return value and exception class).  msg_ops = send_headers(h), send_data for EVERY list of body pieces (any sizes
+   below 2^62, empty pieces included), optional send_headers(trailers); end_stream on the last call.  On a stream nothing was
+   sent on yet (request stream, or push stream behind its header: pu, sy) these calls end the stream (stream_fin) and, for
+   EVERY chunking of the bytes they wrote on it (mk_chunks: FIN on the last delivery or as a delivery of its own), the
+   receive path reports exactly: the headers, the body bytes in order, the trailers, one end of stream (msg_atoms).
+   Hypotheses on the external parts: the decoder returns the header list the encoder was given (decode (encode h) = h:
+   o_dec O sid (blk h) = DHeaders h; same for the trailers), the header list is valid for the receiving role (o_val accepts)
+   and a content-length header, if present, states the body length (cl_ok). *)
+Theorem h3_roundtrip : forall (fx : fixes) (O : oracle) (cl : bool), fx_trunc fx = true -> fx_endmark fx = true ->
+  forall (sid : Z) (pu sy : option Z) (blk encb : Z -> list Z) (c : sconn) (h : Z) (body : list (list Z))
+         (tr ecl : option Z) (first : list Z) (parts : list (list Z)),
+  sc_enc c <> sid -> sget c sid = mkSS sid 0 false ->
+  Zlen (blk h) < 4611686018427387904 -> Forall (fun d => Zlen d < 4611686018427387904) body ->
+  match tr with Some t => Zlen (blk t) < 4611686018427387904 /\ o_dec O sid (blk t) = DHeaders t /\ fst (o_val O 2 t) = true
+              | None => True end ->
+  o_dec O sid (blk h) = DHeaders h -> o_val O (if cl then 1 else 0) h = (true, ecl) ->
+  cl_ok ecl (Zlen (concat body)) ->
+  first ++ concat parts = stream_bytes sid (swrites c (msg_ops sid blk encb h body tr)) ->
+  stream_fin sid (swrites c (msg_ops sid blk encb h body tr)) = true /\
+  events_of (feed fx O cl (fresh_recv sid pu sy) (mk_chunks first parts true)) = Some (msg_atoms sid pu h body tr).
+Proof. exact roundtrip_message. Qed.
+Print Assumptions h3_roundtrip.
+
+(* its two halves: what the calls write on their stream, and what a whole delivery of a well-formed message yields *)
+Theorem h3_roundtrip_send : forall (sid : Z) (blk encb : Z -> list Z) (c : sconn) (h : Z) (body : list (list Z)) (tr : option Z),
+  sc_enc c <> sid -> sget c sid = mkSS sid 0 false ->
+  stream_bytes sid (swrites c (msg_ops sid blk encb h body tr)) = msg_bytes blk h body tr /\
+  stream_fin sid (swrites c (msg_ops sid blk encb h body tr)) = true.
+Proof. exact send_message_split. Qed.
+Print Assumptions h3_roundtrip_send.
+
+(* frames survive: decode (encode) = id for varints and frames, every value below 2^62 *)
+Theorem h3_roundtrip_varint : forall v rest, 0 <= v < 4611686018427387904 ->
+  pull_uint_var (encode_uint_var v ++ rest) = Some (v, rest).
+Proof. exact pull_encode. Qed.
+Print Assumptions h3_roundtrip_varint.
